@@ -296,6 +296,8 @@ def run(R):
         # a configured CONTEXT engine id (a proxied device) differs from the agent's
         # authoritative engine id: keys are localised with the latter
         ctx_engine = bytes([0x80]) + bytes(rng.getrandbits(8) for _ in range(rng.randint(4, 20))) if i % 5 == 4 else b""
+        if i % 25 == 4:
+            ctx_engine = rng.choice((b"\x00", bytes(5), bytes(12)))
         report_ctx = bytes([0x80]) + bytes(rng.getrandbits(8) for _ in range(rng.randint(4, 31))) if i % 7 == 3 else None
         run_case(R, level, variant, op, auth_pw, priv_pw, engine_id, ctx_name, boots, tshift, marker, rotate=rotate, ctx_engine=ctx_engine, report_ctx=report_ctx)
         if i % 10 == 7:
